@@ -329,3 +329,30 @@ class EncodeChunk(Contract):
             yield (f"channel{ch}:its-encoding-stored-at-that-offset", implies(And(j >= 0, j < data.len), result.fn(start + j) == data.fn(j)))
             start = start + data.len
         yield ("nothing-after-the-last-channel", result.len == start)
+
+
+def native_encoder_check():
+    """whole chunks through the real encoder and a decoder written from the format description: blocks that share
+    a label set (table reuse), non-cubic blocks, border blocks, one and two channels"""
+    from neuroglancer_scripts import _compressed_segmentation as cs
+    from .c02_cseg import spec_decode
+    rng = np.random.default_rng(7)
+    for shape, bs in (((1, 4, 4, 8), (2, 2, 2)), ((2, 5, 9, 7), (8, 8, 8)), ((1, 3, 5, 11), (2, 3, 1)), ((2, 9, 4, 6), (1, 2, 4))):
+        for dt in ("<u4", "<u8"):
+            for labels in ((3, 9), (1, 2, 3, 4, 5), tuple(range(40))):
+                a = np.array(labels, dtype=dt)[rng.integers(0, len(labels), size=shape)]
+                # make two blocks hold the same label set in a different arrangement (table reuse)
+                a[:, :bs[2], :bs[1], :bs[0]] = a[:, :bs[2], :bs[1], :bs[0]][..., ::-1]
+                try:
+                    buf = bytes(cs.encode_chunk(a, list(bs)))
+                    got = spec_decode(buf, shape, bs, dt)
+                except Exception as e:
+                    return {"reproduced": True, "detail": f"chunk {shape} block {bs} {dt} labels {len(labels)}: {type(e).__name__} {e}"}
+                if not np.array_equal(got, a):
+                    bad = int((got != a).sum())
+                    return {"reproduced": True, "detail": f"chunk {shape} block {bs} {dt} with {len(labels)} labels: a decoder written from the format recovers {bad} wrong voxels"}
+    return {"reproduced": False, "detail": "format-derived decoder recovers every chunk of the sweep"}
+
+
+EncodeChannelStep.replay = lambda self, model, cfg, ob_name: native_encoder_check()
+EncodeChunk.replay = lambda self, model, cfg, ob_name: native_encoder_check()
